@@ -2,12 +2,16 @@
 use crate::engine::{Plan, Tier};
 
 pub mod c01;
+pub mod c02;
 pub mod c03;
 pub mod c04;
 pub mod c05;
 pub mod c06;
+pub mod c07;
 pub mod c08;
 pub mod c09;
+pub mod c10;
+pub mod c11;
 pub mod c12;
 pub mod c14;
 pub mod c15;
@@ -23,12 +27,16 @@ pub const ALL: &[&str] = &[
 pub fn plan(id: &str, tier: Tier) -> Option<Plan> {
     match id {
         "C01" => Some(c01::plan(tier)),
+        "C02" => Some(c02::plan(tier)),
         "C03" => Some(c03::plan(tier)),
         "C04" => Some(c04::plan(tier)),
         "C05" => Some(c05::plan(tier)),
         "C06" => Some(c06::plan(tier)),
+        "C07" => Some(c07::plan(tier)),
         "C08" => Some(c08::plan(tier)),
         "C09" => Some(c09::plan(tier)),
+        "C10" => Some(c10::plan(tier)),
+        "C11" => Some(c11::plan(tier)),
         "C12" => Some(c12::plan(tier)),
         "C13" => Some(c13::plan(tier)),
         "C14" => Some(c14::plan(tier)),
